@@ -13,8 +13,25 @@ pub fn b(x: bool) -> &'static str { if x { "true" } else { "false" } }
 pub fn zlist<I: IntoIterator<Item = i64>>(xs: I) -> String {
     format!("[{}]", xs.into_iter().map(z).collect::<Vec<_>>().join(";"))
 }
-pub fn bytes_term(xs: &[u8]) -> String { zlist(xs.iter().map(|&x| x as i64)) }
-pub fn str_term(s: &str) -> String { zlist(s.chars().map(|c| c as i64)) }
+/// byte strings and code-point strings are written packed into one hexadecimal literal (long list literals are very slow to
+/// parse in Coq): `le_bytes n 0x..` (Model/Abi.v) and `cps n 0x..` (Corr/C12.v, base 2^21), both little-endian
+pub fn bytes_term(xs: &[u8]) -> String {
+    if xs.len() <= 3 { return zlist(xs.iter().map(|&x| x as i64)); }
+    let mut hex = String::new();
+    for b in xs.iter().rev() { hex.push_str(&format!("{:02x}", b)); }
+    format!("(le_bytes {}%nat 0x{})", xs.len(), hex)
+}
+pub fn str_term(s: &str) -> String {
+    let cs: Vec<u32> = s.chars().map(|c| c as u32).collect();
+    if cs.len() <= 3 { return zlist(cs.iter().map(|&x| x as i64)); }
+    // 21 bits per code point, most significant (last) first; assembled as a bit string
+    let mut bits = String::new();
+    for c in cs.iter().rev() { bits.push_str(&format!("{:021b}", c)); }
+    while bits.len() % 4 != 0 { bits.insert(0, '0'); }
+    let mut hex = String::new();
+    for k in (0..bits.len()).step_by(4) { hex.push_str(&format!("{:x}", u8::from_str_radix(&bits[k..k + 4], 2).unwrap())); }
+    format!("(cps {}%nat 0x{})", cs.len(), hex)
+}
 
 // ---------------------------------------------------------------------------------------------
 // signatures
